@@ -241,7 +241,13 @@ impl<P: ParallelVariant> Rans64Encoder<P> {
         }
 
         // Normalize frequencies to TOTFREQ
-        let normalized_freqs = Self::normalize_frequencies(frequencies, total_freq)?;
+        // A table that already sums to TOTFREQ is a normalised table (e.g. one stored next to
+        // compressed data): use it verbatim so that encoder and decoder agree on every slot.
+        let normalized_freqs = if total_freq == TOTFREQ {
+            *frequencies
+        } else {
+            Self::normalize_frequencies(frequencies, total_freq)?
+        };
         
         let mut symbols = [Rans64Symbol::new(0, 0); 256];
         let mut cumulative = 0u32;
